@@ -326,7 +326,7 @@ func (e *c10Env) usable(c C10Case, where string) (vs []*Violation) {
 		if strings.Contains(string(buf), "sync.(*RWMutex).Lock") {
 			vs = append(vs, viol("", "%s: Add/Remove is parked in RWMutex.Lock: the container's lock was left held", where))
 		} else {
-			vs = append(vs, viol("", "%s: Add/Remove did not complete within 10s (no goroutine parked in RWMutex.Lock found; inconclusive)", where))
+			inconclusive("C10", "TestC10", "Add/Remove did not complete within 10s and no goroutine is parked in RWMutex.Lock")
 		}
 	}
 	return vs
